@@ -7,7 +7,7 @@ for d in ${@:-harmless/H*}; do
   id=$(basename $d)
   git -C /repo checkout -- . ; git -C /repo apply $PWD/$d/patch.diff || { echo "$id APPLY-FAILED" >> $out; continue; }
   s=$(date +%s)
-  res=$(seq -w 1 20 | VERIF_NPROC=6 xargs -P 3 -I{} sh -c './check.sh C{} quick 2>&1 | grep -E "VIOLATION|INTERNAL|^C[0-9]+ tier" | cut -c1-260 | sed "s/^/C{}: /"' )
+  res=$(seq -w 1 20 | VERIF_NPROC=${NPROC:-6} xargs -P ${PAR:-3} -I{} sh -c './check.sh C{} quick 2>&1 | grep -E "VIOLATION|INTERNAL|^C[0-9]+ tier" | cut -c1-260 | sed "s/^/C{}: /"' )
   git -C /repo checkout -- .
   nv=$(echo "$res" | grep -c VIOLATION)
   echo "== $id violations=$nv wall=$(( $(date +%s) - s ))s" >> $out
